@@ -26,7 +26,7 @@ SEMIRINGS = ["Float", "Float", "Real", "Log", "Boolean", "MaxTimes", "MaxPlus", 
 
 
 def plan(tier, seed):
-    return common.plan_shards(tier, seed, n_quick=400, n_thorough=2500, budget_quick=35, budget_thorough=400, pops=True)
+    return common.plan_shards(tier, seed, n_quick=400, n_thorough=6000, budget_quick=35, budget_thorough=400, pops=True)
 
 
 def gates(tier):
